@@ -80,6 +80,7 @@ func c15Custom(t *testing.T, sc *world.Scenario, out *Outcome) {
 		return
 	}
 	defer w.Teardown()
+	w.FineClock = true
 	s := w.S
 	w.KV.LockKey = []byte(prefix + "/election")
 	start := func(n *world.Node) leader.LeaderElection {
